@@ -89,7 +89,8 @@ func enumRuns(idx []int, layout int, mask uint, pattern int) []RunSpec {
 // TestPropSmallScope enumerates exhaustively: every paragraph of length <= 4 (quick) / <= 5 (thorough)
 // over enumSyms x run layouts {one LTR run, one RTL run, LTR+RTL} x every partition of each run into
 // clusters x glyphs per cluster {1, 2 (thorough)} x 3 policies x TruncateAfterLines in {0,1,2}
-// (x TextContinues when truncating) x every integer width from 0 to total+1, through the iterative
+// (x TextContinues when truncating) x every integer width from 0 to total+1 plus two extreme widths
+// (2^25-1 ... MaxInt64, rotating), through the iterative
 // API (and WrapParagraph in the thorough tier). Texts are partitioned over the shards.
 func TestPropSmallScope(t *testing.T) {
 	shard, nshards := ev.Shard()
@@ -98,6 +99,7 @@ func TestPropSmallScope(t *testing.T) {
 	var total, nontrivial int64
 	labels := map[string]int64{}
 	var sampleEvery int64
+	extremeTurn := 0
 	textIndex := 0
 	for n := 0; n <= maxLen; n++ {
 		count := 1
@@ -164,7 +166,14 @@ func TestPropSmallScope(t *testing.T) {
 										continue
 									}
 									c.Cfg.Policy, c.Cfg.Lines, c.Cfg.TextContinues = policy, k, cont == 1
-									for w := 0; w <= maxW; w++ {
+									// every integer width 0..total+1, then two of the extreme widths
+									// (rotating through the list from one configuration to the next)
+									for wi := 0; wi <= maxW+2; wi++ {
+										w := wi
+										if wi > maxW {
+											extremeTurn++
+											w = extremeWidths[extremeTurn%len(extremeWidths)]
+										}
 										c.Widths[0] = w
 										// build() copied these into the wrap config: keep both in step
 										b.cfg.BreakPolicy = shapingPolicy(policy)
